@@ -1,4 +1,5 @@
 import LenaModel.Lemmas.C12
+import LenaModel.Lemmas.C12Hist
 /-! # C12 — lemmas about the graph part of the model: `_parse_error_names`, `_get_err_indices`, the loop of
 `graph.scale`, the invariants of a constructed graph, `zip(*coords)`.  Core Lean only. -/
 namespace Lena.C12
@@ -316,5 +317,108 @@ theorem zipRows_appendRow (m : Nat) : ∀ (cols : List (List Q)) (row : List Q),
       rcases hx with rfl | hx
       · simp [hc]
       · exact ih2 x hx
+
+/-! ### vocabulary and helper lemmas of the graph theorems (`Props/C12.lean`) -/
+
+/-- `field` is an error field of the coordinate `coord`: it is named `error_<coord>` or `error_<coord>_<suffix>` -/
+def ErrorFieldOf (coord field : Name) : Prop :=
+  ∃ rest, field = "error_".toList ++ rest ∧ (rest = coord ∨ ∃ tail, rest = coord ++ '_' :: tail)
+
+theorem errMatches_iff (f c : Name) (hf : isErrField f = true) :
+    errMatches (f.drop 6) c = true ↔ ErrorFieldOf c f := by
+  obtain ⟨rest, rfl⟩ := (isErrField_iff f).1 hf
+  have hd : (errorPrefix ++ rest).drop 6 = rest := by
+    rw [← errorPrefix_length, List.drop_left]
+  rw [hd]
+  simp only [errMatches, Bool.or_eq_true, beq_iff_eq, List.isPrefixOf_iff_prefix]
+  constructor
+  · rintro (h | ⟨t, ht⟩)
+    · exact ⟨rest, rfl, Or.inl h⟩
+    · exact ⟨rest, rfl, Or.inr ⟨t, by simpa using ht.symm⟩⟩
+  · rintro ⟨rest', h1, h2⟩
+    have : rest' = rest := List.append_cancel_left h1.symm
+    subst this
+    rcases h2 with h | ⟨t, ht⟩
+    · exact Or.inl h
+    · exact Or.inr ⟨t, by simp [ht]⟩
+
+/-- the point that `hist_to_graph` makes of a cell -/
+def pointOf (mode : CoordMode) (makeValue : Option (Q → List Q)) (edges : List (Q × Q)) (v : Q) : List Q :=
+  getCoord mode edges ++ graphValue makeValue v
+
+theorem graphLoop_spec (mode : CoordMode) (mv : Option (Q → List Q)) (w : Nat) :
+    ∀ (cellsL : List (Q × List (Q × Q))) (cols : List (List Q)) (m : Nat), cols ≠ [] → cols.length = w →
+      (∀ c ∈ cols, c.length = m) → (∀ p ∈ cellsL, (pointOf mode mv p.2 p.1).length = w) →
+      ∃ cols', graphLoop mode mv (cellsL.map (fun p => (.leaf p.1, p.2))) cols = .ok cols' ∧
+        zipRows cols' = zipRows cols ++ cellsL.map (fun p => pointOf mode mv p.2 p.1) ∧
+        cols'.length = w ∧ ∀ c ∈ cols', c.length = m + cellsL.length
+  | [], cols, m, _, hw, hm, _ => ⟨cols, by simp [graphLoop], by simp, hw, by simpa using hm⟩
+  | (v, ed) :: rest, cols, m, hne, hw, hm, hp => by
+    have hrow : (pointOf mode mv ed v).length = w := hp (v, ed) List.mem_cons_self
+    obtain ⟨a1, a2, a3⟩ := zipRows_appendRow m cols (pointOf mode mv ed v) hne (by rw [hw, hrow]) hm
+    have hne' : appendRow cols (pointOf mode mv ed v) ≠ [] := by
+      intro h0; rw [h0] at a3; exact hne (List.length_eq_zero_iff.1 a3.symm)
+    obtain ⟨cols', b1, b2, b3, b4⟩ := graphLoop_spec mode mv w rest _ (m + 1) hne' (by rw [a3, hw]) a2
+      (fun p hp' => hp p (List.mem_cons_of_mem _ hp'))
+    refine ⟨cols', ?_, ?_, b3, ?_⟩
+    · simp only [List.map_cons, graphLoop]
+      exact b1
+    · rw [b2, a1]; simp
+    · intro c hc
+      rw [b4 c hc]; simp; omega
+
+theorem getCoord_length (mode : CoordMode) (hm : mode ≠ .bad) (ed : List (Q × Q)) :
+    (getCoord mode ed).length = ed.length := by
+  cases mode <;> simp [getCoord] at hm ⊢
+
+theorem cellEdgesRef_length : ∀ (axes : List (List Q)) (idx : List Nat), InRange axes idx →
+    (cellEdgesRef axes idx).length = axes.length
+  | [], [], _ => rfl
+  | [], _ :: _, h => by simp [InRange] at h
+  | _ :: _, [], h => by simp [InRange] at h
+  | _ :: es, _ :: is, h => by simp [cellEdgesRef, cellEdgesRef_length es is h.2]
+
+/-! ### every valid naming is accepted (forward direction of the parse) -/
+
+theorem splitFields_inErr_ok : ∀ (es : List Name) (ind lc : Nat), (∀ f ∈ es, isErrField f = true) →
+    splitFields es ind true lc = .ok (es.zipIdx ind, lc)
+  | [], _, _, _ => by simp [splitFields]
+  | f :: rest, ind, lc, h => by
+    have hf : errorPrefix.isPrefixOf f = true := h f List.mem_cons_self
+    have ih := splitFields_inErr_ok rest (ind + 1) lc (fun g hg => h g (List.mem_cons_of_mem _ hg))
+    simp [splitFields, hf, ih, bind, Except.bind, pure, Except.pure, List.zipIdx_cons]
+
+theorem splitFields_ok : ∀ (cs es : List Name) (ind lc : Nat), (∀ c ∈ cs, isErrField c = false) →
+    (∀ f ∈ es, isErrField f = true) →
+    splitFields (cs ++ es) ind false lc =
+      .ok (es.zipIdx (ind + cs.length), if cs = [] then lc else ind + cs.length - 1)
+  | [], es, ind, lc, _, he => by
+    cases es with
+    | nil => simp [splitFields]
+    | cons f rest =>
+      have hf : errorPrefix.isPrefixOf f = true := he f List.mem_cons_self
+      have ih := splitFields_inErr_ok rest (ind + 1) lc (fun g hg => he g (List.mem_cons_of_mem _ hg))
+      simp [splitFields, hf, ih, bind, Except.bind, pure, Except.pure, List.zipIdx_cons]
+  | c :: cs, es, ind, lc, hc, he => by
+    have hcf : errorPrefix.isPrefixOf c = false := hc c List.mem_cons_self
+    have ih := splitFields_ok cs es (ind + 1) ind (fun x hx => hc x (List.mem_cons_of_mem _ hx)) he
+    simp only [List.cons_append, splitFields, hcf, Bool.false_eq_true, if_false, ih]
+    congr 2
+    · congr 1; simp; omega
+    · by_cases hcs : cs = []
+      · simp [hcs]
+      · have : cs.length ≠ 0 := by simpa using hcs
+        simp [hcs]
+
+theorem parseErrs_ok (coords : List Name) : ∀ (errs : List (Name × Nat)),
+    (∀ p ∈ errs, ∃ c, coords.filter (errMatches (p.1.drop 6)) = [c]) →
+    ∃ parsed, parseErrs coords errs = .ok parsed ∧ parsed.length = errs.length
+  | [], _ => ⟨[], by simp [parseErrs], rfl⟩
+  | (err, ind) :: rest, h => by
+    obtain ⟨c, hc⟩ := h (err, ind) List.mem_cons_self
+    obtain ⟨tail, ht, hl⟩ := parseErrs_ok coords rest (fun p hp => h p (List.mem_cons_of_mem _ hp))
+    simp only at hc
+    exact ⟨{ coord := c, tail := (err.drop 6).drop (c.length + 1), ind := ind } :: tail,
+      by simp [parseErrs, hc, ht, bind, Except.bind, pure, Except.pure], by simp [hl]⟩
 
 end Lena.C12
